@@ -97,8 +97,13 @@ def gen_cases(rng, tier):
                 cut = rng.randint(0, len(nk))
                 probes.append(["travfrom", list(nk[:cut]), list(nk[cut:rng.randint(cut, len(nk))]) + ([rng.randrange(16)] if rng.random() < 0.2 else [])])
         for p in probes:
-            yield {"prune": prune, "ops": ops, "probe": p, "dropseed": rng.randrange(1 << 30),
-                   "batch": rng.random() < 0.3 and p[0] in ("get", "set", "del", "exists")}
+            batch = rng.random() < 0.3 and p[0] in ("get", "set", "del", "exists")
+            c = {"prune": prune, "ops": ops, "probe": p, "dropseed": rng.randrange(1 << 30), "batch": batch}
+            if batch and rng.random() < 0.4:
+                # the failure is not caught inside the block: after a write that usually succeeds, the MissingTrieNode of
+                # the probe leaves the squash_changes block (seeded change C07m-batch-shares-counts-missing-node)
+                c["escape"] = [rng.choice(keys).hex(), hexlib.gen_value(rng, values).hex() or "61"]
+            yield c
 
 
 def run_case(case):
@@ -206,6 +211,69 @@ def run_case(case):
             return line, hexlib.fmt_exc(e), e
         except Exception as e:  # noqa
             return line, hexlib.fmt_exc(e), e
+
+    if case.get("escape") and batch_cm is not None:
+        # a block that is LEFT by the missing-node exception: whatever ran inside, the outer trie must be exactly as before
+        # the block (root, database, reference counts), and must work normally once the bodies are back
+        outer = (dict(db), trie.root_hash, dict(trie.ref_count) if trie.is_pruning else None)
+        pk, pv = bytes.fromhex(case["escape"][0]), bytes.fromhex(case["escape"][1])
+        exc = None
+        try:
+            target.set(pk, pv)
+            res.emit("hx.set b %s %s" % (hx(pk), hx(pv)), "ok")
+        except (MissingTrieNode, MissingTraversalNode) as e:
+            res.emit("hx.set b %s %s" % (hx(pk), hx(pv)), hexlib.fmt_exc(e))
+            exc = e
+        if exc is None:
+            line, out, exc = attempt()
+            if kind == "exists" and exc is None:
+                res.emit(line, "v " + hx(target.get(key)))
+            else:
+                res.emit(line, out if not (exc is None and kind in ("set", "del")) else "ok")
+        if exc is not None and not isinstance(exc, (MissingTrieNode, MissingTraversalNode)):
+            res.fail("wrong-exception", "%r raised %r" % (probe, exc))
+        try:
+            if exc is not None:
+                batch_cm.__exit__(type(exc), exc, exc.__traceback__)
+                res.emit("hx.bend 1", "ok")
+            else:
+                batch_cm.__exit__(None, None, None)
+                res.emit("hx.bend 0", "ok")
+        except Exception as e:  # noqa
+            res.emit("hx.bend %d" % (1 if exc is not None else 0), hexlib.fmt_exc(e))
+        res.emit("hx.root 0", hx(trie.root_hash))
+        res.emit("hx.dbkeys", hexlib.fmt_dbkeys(db))
+        if trie.is_pruning:
+            res.emit("hx.counts 0", hexlib.fmt_counts(trie.ref_count))
+        if exc is not None:
+            if dict(db) != outer[0]:
+                res.fail("failed-call-changed-db", "a squash_changes block left by %s changed the database" % type(exc).__name__)
+            if trie.root_hash != outer[1]:
+                res.fail("failed-call-changed-root", "a squash_changes block left by %s changed the outer root" % type(exc).__name__)
+            if trie.is_pruning and dict(trie.ref_count) != outer[2]:
+                res.fail("failed-call-changed-counts", "a squash_changes block left by %s (after a successful write inside it) "
+                         "changed the outer reference counts" % type(exc).__name__)
+            if trie._pending_prune_keys is not None:
+                res.fail("pending-prunes-left", "pending prunes left behind after the aborted block")
+            # supply everything again: the trie answers as before the damage
+            for h in gone:
+                db[h] = full[h]
+                res.emit("hx.put %s %s" % (hx(h), hx(full[h])), "ok")
+            for k, v in sorted(model.items()):
+                try:
+                    got = trie.get(k)
+                except Exception as e:  # noqa
+                    got = e
+                if got != v:
+                    res.fail("result-differs-from-complete-db", "after the aborted block and with all bodies supplied again, "
+                             "get(%s) = %r, stored %r" % (k.hex(), got, v))
+                res.emit("hx.get 0 %s" % hx(k), "v " + hx(v))
+            if trie.is_pruning and dict(trie.regenerate_ref_count()) != {k: c for k, c in trie.ref_count.items() if c}:
+                res.fail("failed-call-changed-counts", "reference counts differ from regenerate_ref_count() after the aborted block")
+        res.tags.add("block-left-by-missing-node" if exc is not None else "escape-block-unaffected")
+        res.nontrivial = exc is not None
+        res.state_key = common.sha([sorted(k.hex() for k in full), sorted(k.hex() for k in gone), probe, "escape", case["escape"]])
+        return res
 
     reported = []
     first_failed = False
